@@ -387,7 +387,13 @@ class Exec(ExprMixin, CallMixin):
         return self.simple(st)
 
     def st_Return(self, s, st):
-        v = self.ev(s.value, st) if s.value is not None else none_sv()
+        rt = self.eng.ptype(self.c.returns) if self.c.returns else None
+        if isinstance(s.value, ast.Tuple) and isinstance(rt, T.Tuple) and len(rt.ts) == len(s.value.elts):
+            # a returned tuple is built at the declared component types (None -> optional component)
+            parts = [coerce(self.ev(e, st), t) for e, t in zip(s.value.elts, rt.ts)]
+            v = SV(rt, rt.mk([p.z for p in parts]), aux=parts)
+        else:
+            v = self.ev(s.value, st) if s.value is not None else none_sv()
         out = Out()
         self.take_exits(out)
         out.rets.append((st, v, self.ret_ord.get(id(s), '?')))
